@@ -541,6 +541,14 @@ func ruleGxzDataSafety(c *Ctx, r *Report, prefix string) {
 					resolveWith = nil
 					if os.Getenv("XZV_TRACE") != "" {
 						fmt.Printf("SHAPE FAIL rets=%v errval=%v (%T) errnil=%v exit=%v\n", sp.Rets, sp.ErrVal, sp.ErrVal, sp.ErrNil, sp.Exit)
+						if bo, ok := rv(res).(*ssa.BinOp); ok {
+							resolveWith = sp.P
+							fmt.Printf("   X=%v (%T) Y=%v -> %v (%T)\n", rv(bo.X), rv(bo.X), bo.Y, rv(bo.Y), rv(bo.Y))
+							for a, v := range sp.P.allocs {
+								fmt.Printf("      alloc %s(%s) = %v (%T)\n", a.Name(), a.Parent().Name(), v, v)
+							}
+							resolveWith = nil
+						}
 					}
 					r.Fail(rule, key+":shape", c.InstrPos(sp.Exit), "targetName's result is neither path+suffix nor path with exactly its known suffix removed (path[:len(path)-len(ext)] or strings.TrimSuffix)", sp.Trace...)
 					bad = true
